@@ -100,6 +100,10 @@ def pr_function(f):
     return "\n".join(out)
 
 
+def pr_redeclares(rl):
+    return ", ".join("redeclare %s%s %s" % ("".join(p + " " for p in r.get("prefixes", [])), r["type"], r["name"]) for r in rl)
+
+
 def to_text(case):
     out = []
     types = case.get("types", [])
@@ -108,10 +112,17 @@ def to_text(case):
         out += [pr_alias(t) for t in types if t["pos"] == i]
         out += [pr_function(f) for f in funcs if f["pos"] == i]
         out.append("model %s" % c["name"])
-        for cl in c["decls"]:
+        for j, cl in enumerate(c["decls"] + [None]):
+            for e in c.get("extends", []):
+                if e["at"] == j or (cl is None and e["at"] > j):
+                    out.append("  extends %s%s;" % (e["base"], "(%s)" % pr_redeclares(e["redeclare"]) if e.get("redeclare") else ""))
+            if cl is None:
+                break
             items = []
             for it in cl["items"]:
                 s = it["name"]
+                if it.get("redeclare"):
+                    s += "(%s)" % pr_redeclares(it["redeclare"])
                 if it.get("dim") is not None:
                     s += "[%d]" % it["dim"]
                 if it.get("start") is not None:
@@ -119,7 +130,8 @@ def to_text(case):
                 if it.get("value") is not None:
                     s += " = %s" % pr_value(it["value"])
                 items.append(s)
-            out.append("  %s%s %s;" % ("".join(p + " " for p in cl["prefixes"]), cl["type"], ", ".join(items)))
+            out.append("  %s%s%s %s;" % ("replaceable " if cl.get("replaceable") else "",
+                                          "".join(p + " " for p in cl["prefixes"]), cl["type"], ", ".join(items)))
         if c.get("ieqs"):
             out.append("initial equation")
             out += [pr_eq(q) for q in c["ieqs"]]
@@ -152,10 +164,17 @@ def flat_of(case):
                 pending = False
         if c is None:
             break
-        for cl in c["decls"]:
+        for j, cl in enumerate(c["decls"] + [None]):
+            for e in c.get("extends", []):
+                if e["at"] == j or (cl is None and e["at"] > j):
+                    if e.get("redeclare"):
+                        n += len(e["redeclare"])       # each `redeclare T x` is a component declaration
+                        pending = False
+            if cl is None:
+                break
             for it in cl["items"]:
                 order[(c["name"], it["name"])] = n
-                n += 1
+                n += 1 + len(it.get("redeclare", []))
                 pending = False
     syms, exprs = [], []
 
@@ -178,11 +197,18 @@ def flat_of(case):
             return ["op", "if", [ren(q[1], pre), ren_eq(q[2], pre), ren_eq(q[3], pre)]]
         return ["for", q[1], ren_eq(q[3], pre)]
 
-    def walk(cname, pre):
+    def walk(cname, pre, redecl=None):
+        """redecl: {name: redeclaring entry} - a redeclaration replaces the TYPE of the element; its type
+        prefixes stay those of the original declaration (Modelica: inherited by the redeclaration)"""
         c = classes[cname]
+        redecl = redecl or {}
+        for e in sorted(c.get("extends", []), key=lambda e: e["at"]):
+            walk(e["base"], pre, dict(redecl, **{r["name"]: r for r in e.get("redeclare", [])}))
         for cl in c["decls"]:
             for it in cl["items"]:
                 bt = btype(case, cl)
+                if bt and it["name"] in redecl:
+                    bt = redecl[it["name"]]["btype"]
                 if bt:
                     p = list(cl["prefixes"])
                     if pre:
@@ -193,7 +219,7 @@ def flat_of(case):
                         if isinstance(it.get(a), list):
                             exprs.append(ren(it[a], pre))
                 else:
-                    walk(cl["type"], pre + it["name"] + ".")
+                    walk(cl["type"], pre + it["name"] + ".", {r["name"]: r for r in it.get("redeclare", [])})
         for q in c.get("eqs", []) + c.get("ieqs", []):
             exprs.append(ren_eq(q, pre))
 
@@ -436,7 +462,23 @@ def gen_aliases(rng, n_classes):
     return types, by
 
 
-def gen_class(rng, name, helpers, nmin, nmax, allow_out_string, aliases=None):
+def gen_redeclares(rng, cls, aliases):
+    """Component redeclarations of replaceable elementary elements of class `cls`: new type = an alias of the same
+    builtin type (or the builtin itself); the type prefixes are omitted (inherited) or repeated unchanged."""
+    out = []
+    for cl in cls["decls"]:
+        if cl.get("replaceable") and rng.random() < 0.7:
+            bt = btype(None, cl)
+            cand = list((aliases or {}).get(bt, [])) + [bt]
+            r = {"name": cl["items"][0]["name"], "type": rng.choice(cand), "btype": bt}
+            if rng.random() < 0.35:
+                r["prefixes"] = list(cl["prefixes"])
+            out.append(r)
+    rng.shuffle(out)
+    return out
+
+
+def gen_class(rng, name, helpers, nmin, nmax, allow_out_string, aliases=None, npre="", classes=None):
     """helpers: list of (class name, [local referable names]) usable as component types."""
     decls, refs, arrays = [], [], {}
     k = 0
@@ -444,8 +486,14 @@ def gen_class(rng, name, helpers, nmin, nmax, allow_out_string, aliases=None):
     while k < n:
         if helpers and rng.random() < 0.22:
             hname, hrefs = rng.choice(helpers)
-            inst = "c%d" % k
-            decls.append({"prefixes": [], "type": hname, "items": [{"name": inst}]})
+            inst = "%sc%d" % (npre, k)
+            it = {"name": inst}
+            hcls = (classes or {}).get(hname)
+            if hcls and rng.random() < 0.6:
+                rl = gen_redeclares(rng, hcls, aliases)
+                if rl:
+                    it["redeclare"] = rl
+            decls.append({"prefixes": [], "type": hname, "items": [it]})
             refs += [inst + "." + r for r in hrefs]
             k += 1
             continue
@@ -456,7 +504,7 @@ def gen_class(rng, name, helpers, nmin, nmax, allow_out_string, aliases=None):
             pre = [x for x in pre if x != "output"]
         items = []
         for _ in range(1 if rng.random() < 0.75 else rng.randint(2, 3)):
-            nm = "%s%d" % ("xyzuvwpq"[k % 8], k)
+            nm = "%s%s%d" % (npre, "xyzuvwpq"[k % 8], k)
             it = {"name": nm}
             x = rng.random()
             if typ != "String" and x < 0.07:
@@ -471,6 +519,8 @@ def gen_class(rng, name, helpers, nmin, nmax, allow_out_string, aliases=None):
                 refs.append(nm)
             k += 1
         cl = {"prefixes": pre, "type": typ, "items": items}
+        if len(items) == 1 and items[0].get("dim") is None and typ != "String" and rng.random() < 0.5:
+            cl["replaceable"] = True
         if aliases and aliases.get(typ) and rng.random() < 0.45:
             cl["type"] = rng.choice(aliases[typ])
             cl["btype"] = typ
@@ -565,6 +615,39 @@ def gen_functions(rng, n_classes, model_names):
     return funcs
 
 
+def strip_all_der(e):
+    k = e[0]
+    if k in ("ref", "lit"):
+        return e
+    if k == "neg":
+        return ["neg", strip_all_der(e[1])]
+    if k == "der":
+        return strip_all_der(e[1][0])
+    return [k, e[1], [strip_all_der(a) for a in e[2]]]
+
+
+def edited_case(rng, case):
+    """The same model after an edit of the main class's equations: every der() removed from the equations (formerly
+    differentiated variables become algebraic), initial equations dropped, and one new der() equation on a plain
+    top-level Real (a formerly algebraic variable becomes a state)."""
+    def ed(q):
+        if q[0] == "eq":
+            return ["eq", strip_all_der(q[1]), strip_all_der(q[2])]
+        if q[0] == "if":
+            return ["if", strip_all_der(q[1]), ed(q[2]), ed(q[3])]
+        return ["for", q[1], q[2], ed(q[3])]
+    c2 = json.loads(json.dumps({k: v for k, v in case.items() if k not in ("text", "regen")}))
+    m = [c for c in c2["classes"] if c["name"] == c2["main"]][0]
+    m["eqs"] = [ed(q) for q in m["eqs"]]
+    m["ieqs"] = []
+    plain = [it["name"] for cl in m["decls"] if cl["type"] == "Real" and not cl["prefixes"]
+             for it in cl["items"] if it.get("dim") is None]
+    if plain:
+        m["eqs"].append(["eq", ["der", [["ref", rng.choice(plain), None]]], ["lit", 1.0]])
+    c2["kind"] = "regen"
+    return c2
+
+
 def gen_eq_simple(rng, refs, arrays, p_der):
     lhs = gen_expr(rng, refs, arrays, 1, p_der * 1.5)
     return ["eq", lhs, gen_expr(rng, refs, arrays, rng.randint(1, 3), p_der)]
@@ -577,12 +660,29 @@ def gen_model(rng, allow_out_string=False):
     types, aliases = gen_aliases(rng, nh + 1)
     for h in range(nh):
         name = "S%d" % (h + 1)
-        decls, refs, arrays = gen_class(rng, name, helpers if rng.random() < 0.6 else [], 1, 4, False, aliases)
+        decls, refs, arrays = gen_class(rng, name, helpers if rng.random() < 0.6 else [], 1, 4, False, aliases,
+                                        classes={c["name"]: c for c in classes})
         p_der = rng.choice([0.0, 0.15, 0.3])
         eqs = [gen_eq(rng, refs, arrays, p_der) for _ in range(rng.randint(0, 3))] if refs else []
         classes.append({"name": name, "decls": decls, "eqs": eqs, "ieqs": []})
         helpers.append((name, [r for r in refs if r not in arrays]))
-    decls, refs, arrays = gen_class(rng, "M", helpers, 2, 9, allow_out_string, aliases)
+    # a base class that M extends (names prefixed "e" so that they cannot clash), with component redeclarations
+    ext = None
+    if rng.random() < 0.35:
+        bdecls, brefs, barrays = gen_class(rng, "B", helpers if rng.random() < 0.4 else [], 1, 5, False, aliases, npre="e",
+                                           classes={c["name"]: c for c in classes})
+        bp = rng.choice([0.0, 0.2, 0.4])
+        beqs = [gen_eq(rng, brefs, barrays, bp) for _ in range(rng.randint(0, 3))] if brefs else []
+        base = {"name": "B", "decls": bdecls, "eqs": beqs, "ieqs": []}
+        classes.append(base)
+        ext = (base, brefs, barrays)
+        if rng.random() < 0.4:
+            helpers.append(("B", [r for r in brefs if r not in barrays]))
+    decls, refs, arrays = gen_class(rng, "M", helpers, 2, 9, allow_out_string, aliases,
+                                    classes={c["name"]: c for c in classes})
+    if ext:
+        refs = refs + ext[1]
+        arrays = dict(arrays, **ext[2])
     p_der = rng.choice([0.05, 0.15, 0.25, 0.4])
     scalars = [r for r in refs if "." not in r and r not in arrays]
     eqs = [gen_eq(rng, refs, arrays, p_der, shadow=scalars) for _ in range(rng.randint(1, 6))] if refs else []
@@ -609,6 +709,8 @@ def gen_model(rng, allow_out_string=False):
                     if it.get("dim") is None and rng.random() < 0.12:
                         it["value" if rng.random() < 0.6 else "start"] = gen_expr(rng, refs, arrays, 2, 0.5)
     main = {"name": "M", "decls": decls, "eqs": eqs, "ieqs": ieqs}
+    if ext:
+        main["extends"] = [{"base": "B", "at": rng.randint(0, len(decls)), "redeclare": gen_redeclares(rng, ext[0], aliases)}]
     pos = rng.randint(0, len(classes))               # main before / between / after the helpers
     classes.insert(pos, main)
     case = {"classes": classes, "main": "M", "kind": "random"}
@@ -755,6 +857,8 @@ def run_children(ctx, cases, workers=3):
 def prepare(case):
     c = dict(case)
     c["text"] = to_text(case)
+    if c.get("regen"):
+        c["regen"] = dict(c["regen"], text2=to_text(c["regen"]["case2"]))
     return c
 
 
@@ -773,7 +877,13 @@ def run(ctx):
     n_fixed = len(cases)
     n_rand = ctx.scaled(250, 6000)
     for i in range(n_rand):
-        cases.append(gen_model(ctx.rng, allow_out_string=(i % 25 == 0)))
+        c = gen_model(ctx.rng, allow_out_string=(i % 25 == 0))
+        if i % 7 == 3 and not c.get("inject"):           # generate / edit equations / generate on one tree
+            c["regen"] = {"case2": edited_case(ctx.rng, c)}
+        cases.append(c)
+    rc = corpus_cases()[0]
+    rc["regen"] = {"case2": edited_case(ctx.rng, rc)}
+    cases.append(rc)
     for _ in range(ctx.scaled(10, 60)):
         cases.append(malformed_case(ctx.rng))
     cases = [prepare(c) for c in cases]
@@ -785,6 +895,7 @@ def run(ctx):
     kinds, cats = {}, {k: 0 for k in LISTS}
     nontrivial = set()
     n_exc_malformed = 0
+    n_regen = 0
     enc, idx = [], []
     for i, (c, r) in enumerate(zip(cases, results)):
         kinds[c["kind"]] = kinds.get(c["kind"], 0) + 1
@@ -806,6 +917,17 @@ def run(ctx):
         if "lists" in r or (v and v[0] == KNOWN_TAG):
             enc.append(encode_case(c, r))
             idx.append(i)
+        if c.get("regen") and "lists2" in r:
+            c2 = c["regen"]["case2"]
+            v2 = judge(c2, {"lists": r["lists2"]})
+            if not v2 and r["lists2"] != r["fresh2"]:
+                v2 = ("fresh", "differs from a fresh parse of the edited text: %s" % json.dumps(r["fresh2"])[:300])
+            if v2:
+                core.report(ctx, "regen-" + v2[0], "second generate() on the same parsed tree after editing the equations: " + v2[1],
+                            {"input": c, "observed": r})
+            enc.append(encode_case(c2, {"lists": r["lists2"]}))
+            idx.append(i)
+            n_regen += 1
     # (b) correspondence, inside Coq
     t_coq = time.time()
     bad = core.coq_eval_cases(ctx, "gen", "From PV Require Import Model.C10_classify.\nImport ListNotations.\n",
@@ -838,7 +960,7 @@ def run(ctx):
                        "non-trivial = valid case with >= 2 flat symbols, distinct by (symbol table, text)" % (n_fixed, n_rand))
     ctx.cov["samples"] = [cases[0]["text"], cases[n_fixed]["text"], cases[n_fixed + 1].get("inject") or cases[n_fixed + 1]["text"]]
     ctx.notes["input_distribution"] = {"kinds": kinds, "variables_per_list_observed": cats,
-                                       "malformed_rejected": n_exc_malformed, "encoded_for_coq": len(enc)}
+                                       "malformed_rejected": n_exc_malformed, "generate_edit_generate_sequences": n_regen, "encoded_for_coq": len(enc)}
     ctx.assumptions += [
         "the flat description of a case (names with instance prefixes, input/output stripped on nested symbols, one "
         "parser order counter over the file) is computed by the harness (vlib/c10.py flat_of) and is the model's input; "
@@ -856,6 +978,13 @@ def replay(ctx, path):
     case = prepare(rec["input"])
     res = core.run_child(ctx, "c10", [case])[0]
     v = judge(case, res)
+    if not v and case.get("regen") and "lists2" in res:
+        v = judge(case["regen"]["case2"], {"lists": res["lists2"]})
+        if not v and res["lists2"] != res["fresh2"]:
+            v = ("fresh", "second generate differs from a fresh parse of the edited text")
+        if v:
+            v = ("regen-" + v[0], v[1])
+        print("edited text:\n" + case["regen"]["text2"])
     print(case["text"])
     if case.get("inject"):
         print("inject:", case["inject"])
